@@ -117,7 +117,7 @@ func (x *Exec) appendModel(fr *Frame, st *State, sargs []ssa.Value, args []*Valu
 			}
 		}
 		st.heap[key] = Store(heap, ref, na)
-		x.written[key] = true
+		x.noteWrite(key, ref)
 	}
 	return &Value{K: KSlice, T: resT, Ref: ref, Off: IntLit(0), Len: newLen}
 }
@@ -149,7 +149,7 @@ func (x *Exec) copyModel(fr *Frame, st *State, sargs []ssa.Value, args []*Value,
 		x.facts = append(x.facts, Forall([]*Term{i}, Eq(Select(na, i),
 			Ite(And(Le(dst.Off, i), Lt(i, Add(dst.Off, n))), from, Select(old, i))), []*Term{Select(na, i)}))
 		st.heap[key] = Store(heap, dst.Ref, na)
-		x.written[key] = true
+		x.noteWrite(key, dst.Ref)
 	}
 	return scalar(resT, n)
 }
@@ -160,6 +160,8 @@ func (x *Exec) modelCall(fr *Frame, st *State, fn *ssa.Function, name string, ar
 	case "github.com/matrix-org/util.GetLogger", "github.com/sirupsen/logrus.WithField", "github.com/sirupsen/logrus.WithError",
 		"github.com/sirupsen/logrus.WithFields", "github.com/sirupsen/logrus.WithContext":
 		return x.freshResultNonNil(st, resT, "log"), true
+	case "encoding/json.Unmarshal":
+		return x.jsonUnmarshal(fr, st, args, resT, pos), true
 	case "strings.HasPrefix":
 		return scalar(resT, x.hasPrefixTerm(args[0].Term, args[1].Term)), true
 	case "strings.HasSuffix":
